@@ -45,6 +45,8 @@ def surface_product(tier):
         spec["end"] = A._f(A._d(spec["start"]) + __import__("datetime").timedelta(days=26))
         yield {"kind": "spec", "spec": spec, "label": {"surface": [bund, srinhb, adjcn, cnflag, cnpct, rain, irr, soil, season_only]}}
 
+NONTRIVIAL = ['curve_number_runoff_day', 'ksat_limited_day', 'bund_overtopping_day', 'bund_removal_day', 'irrigation_only_runoff_day', 'storm_day']
+
 
 def scenarios(tier, seed=0):
     menus = dict(A.WATER_MENUS)
